@@ -395,6 +395,113 @@ def overlapping_resolves_probe(order):
         loop.close()
 
 
+def stop_during_attempt_probe(how):
+    """A reconnect manager that owns its mDNS engine (none supplied by the application) is stopped while it is 'not yet connected':
+    from inside the application's on_connect_error callback (stop_callback(), how='from-callback'), or from outside while an
+    attempt is in flight and the client turns the cancellation into a connection error (how='outside'). When everything has
+    settled, every engine the library created has been closed, none carries a listener, and no attempt follows.
+    Returns (engines as (closed, listeners), attempts after stop, problems)."""
+    async def go():
+        from aioesphomeapi.core import APIConnectionError
+        from aioesphomeapi.reconnect_logic import ReconnectLogic
+        from aioesphomeapi.zeroconf import ZeroconfManager
+        loop = asyncio.get_running_loop()
+        engines = []
+
+        class Zc:
+            def __init__(self):
+                self.listeners = []
+
+            def async_add_listener(self, listener, question):
+                self.listeners.append(listener)
+
+            def async_remove_listener(self, listener):
+                if listener in self.listeners:
+                    self.listeners.remove(listener)
+
+        class Engine:
+            def __init__(self, zc=None):
+                self.zeroconf = zc or Zc()
+                self.closed = 0
+                engines.append(self)
+
+            async def async_close(self):
+                self.closed += 1
+
+        class Client:
+            def __init__(self):
+                self.address = "10.0.0.1"
+                self.log_name = "dev @ 10.0.0.1"
+                self.zeroconf_manager = ZeroconfManager()
+                self.attempts = 0
+                self.gate = None
+
+            def set_cached_name_if_unset(self, name):
+                pass
+
+            async def start_connection(self, on_stop=None):
+                self.attempts += 1
+                self.gate = loop.create_future()
+                try:
+                    await self.gate
+                except asyncio.CancelledError:
+                    # what APIConnection.start_connection does with a cancellation
+                    raise APIConnectionError("Starting connection cancelled") from None
+
+            async def finish_connection(self, login=False):
+                pass
+        with patch("aioesphomeapi.zeroconf.AsyncZeroconf", Engine):
+            cli = Client()
+            box = {}
+
+            async def on_connect():
+                pass
+
+            async def on_disconnect(expected):
+                pass
+
+            async def on_connect_error(err):
+                if how == "from-callback":
+                    box["rl"].stop_callback()
+            rl = ReconnectLogic(client=cli, on_connect=on_connect, on_disconnect=on_disconnect, on_connect_error=on_connect_error, name="dev")
+            box["rl"] = rl
+            await rl.start()
+            for _ in range(5):
+                await asyncio.sleep(0)
+            if how == "from-callback":
+                cli.gate.set_exception(APIConnectionError("nope"))
+            else:
+                await rl.stop()
+            for _ in range(30):
+                await asyncio.sleep(0)
+            n_after = cli.attempts
+            await asyncio.sleep(0.05)
+            for _ in range(10):
+                await asyncio.sleep(0)
+            problems = []
+            for k, e in enumerate(engines):
+                if e.zeroconf.listeners:
+                    problems.append(f"engine {k} the library created still carries the manager's listener")
+                if e.closed != 1:
+                    problems.append(f"engine {k} the library created was closed {e.closed} time(s)")
+            if cli.attempts != n_after or (cli.gate is not None and not cli.gate.done()):
+                problems.append("an attempt is in flight / was started after the stop")
+            report = [(e.closed, len(e.zeroconf.listeners)) for e in engines]
+            for t in asyncio.all_tasks(loop):
+                if t is not asyncio.current_task():
+                    t.cancel()
+            try:
+                await rl.stop()
+            except Exception:  # noqa: BLE001
+                pass
+        return report, cli.attempts, problems
+    loop = asyncio.new_event_loop()
+    try:
+        return loop.run_until_complete(go())
+    finally:
+        loop.close()
+
+
 def second_session_probe(host, second):
     """One APIClient, two sessions. In the first the name resolves; in the second nothing resolves (mDNS `second[0]`, OS resolver
     `second[1]`): the attempt must fail with a connection error and must not reach the socket layer with addresses of its own."""
@@ -536,6 +643,13 @@ def run(rep, tier, seed):
         elif lib_bad:
             rep.violation("C20/library-instance-not-closed", f"manager operations overlapping a close ({scenario}: {notes}): engines created by the library and how often each was closed: "
                           f"{[e for e in engines if e[0] == 'Lib']} (each exactly once)", {"kind": "manager-overlap", "scenario": scenario})
+    for how in ("from-callback", "outside"):
+        report, attempts, problems = stop_during_attempt_probe(how)
+        rep.case(("stop-during-attempt", how), True, sample={"stop_during_attempt": how, "engines": report, "attempts": attempts})
+        rep.bump("probe:stop-during-attempt")
+        if problems:
+            rep.violation("C20/library-instance-not-closed", f"reconnect manager owning its mDNS engine, stopped {how} while an attempt fails: {'; '.join(problems[:3])} "
+                          f"(engines as (times closed, listeners): {report})", {"kind": "stop-during-attempt", "how": how})
     for order in ("ab", "ba"):
         results, report, problems = overlapping_resolves_probe(order)
         rep.case(("overlapping-resolves", order), True, sample={"overlapping_resolves": order, "results": results, "engines_closed": report})
@@ -560,6 +674,11 @@ def run(rep, tier, seed):
 
 def replay(path):
     d0 = json.loads(open(path).read()).get("replay", {})
+    if d0.get("kind") == "stop-during-attempt":
+        common.setup_impl_path()
+        r = stop_during_attempt_probe(d0["how"])
+        print(r)
+        return 1 if r[2] else 0
     if d0.get("kind") == "overlapping-resolves":
         common.setup_impl_path()
         r = overlapping_resolves_probe(d0["order"])
